@@ -70,7 +70,12 @@ def core_cases(run, T):
     """The C04 expression stream (atoms renamed to x<n> / s<n>) plus all ordered pairs and triples of
     prefix operators, postfix pairs, and LIKE-family variants with ANY / ESCAPE."""
     rng = run.rng
-    cases = C04.gen_cases(run, T)
+
+    class _QuickTier:        # the C04 quick stream (all pairs); its thorough stream (2M cases) is C04's own business
+        tier = "quick"
+    shim = _QuickTier()
+    shim.rng = rng
+    cases = C04.gen_cases(shim, T)
     if run.tier != "thorough":
         keep = {"single", "single-prefix", "pair", "interior", "paren", "chain", "triple"}
         cases = [c for c in cases if c["stream"] in keep]
